@@ -64,6 +64,18 @@ PROPS["C03"] = {
     "assumptions": COMMON_ASSUME + ["a committed reader created beyond the HW resumes at HW+1 as documented in newReaderCommitted (judged as such, see DESIGN.md C10 for the subscription-level consequence)"],
 }
 
+PROPS["C08"] = {
+    "engine": "h1",
+    "level": "exploration",
+    "budget": {"quick": 40, "thorough": 600},
+    "runs_per_proc": 100,
+    "technique": "deterministic simulation: compaction (real Clean with 1/2/10 scan workers as scheduled tasks) interleaved with a concurrent appender/HW mover and live readers; survivor oracle computed from the statement; forward and reverse readers from every start offset compared with the survivor list",
+    "level_text": "seeded exploration over key patterns (nil, empty, four keys), segment layouts, HW positions, repeated cleans, cleans racing appends and readers; after every clean the survivors are judged (must-survive set, nothing else removed than superseded keyed committed messages, content unchanged) and every start offset is read forwards and backwards, committed and uncommitted",
+    "level_note": "when retention is also configured, removal of whole oldest segments is left to C09 and the C08 clauses apply above the first surviving offset",
+    "rule": "programs of <=30 (thorough <=50) operations; distinct = distinct event-log hash; non-trivial = at least one clean removed at least one message and >=10 oracle evaluations",
+    "assumptions": COMMON_ASSUME,
+}
+
 NOT_APPLICABLE = [
     {"property_id": pid, "reason": "check not built yet in this round (engine under construction); see DESIGN.md section 9 build order"}
     for pid in ["C%02d" % i for i in range(1, 20)] if pid not in PROPS
